@@ -444,8 +444,11 @@ class ReorgDriver(IndexDriver):
                 state.get('prev') and state['prev'][0] == 'commit' and state['prev'][1][0] == 'hist':
             # hazard recogniser: death between the history rollback commit and the UTXO commit of
             # one flush_backup; the block being undone is the one still stored as tip
-            self.hazards['c05_hist_rolled_back'] = True
             self.probe('hazard.crash_between_history_and_utxo_rollback')
+            st = self.stored_state()
+            blk = self.w.tree.blocks.get(st['tip']) if st else None
+            if blk is not None:
+                self.half_undone = getattr(self, 'half_undone', []) + [blk]
         self.crashes.append(dict(dop=failed, tag=tag, detail=state.get('detail'),
                                  applied_height=applied[-1] if applied else -1,
                                  last_commits=self.utxo_commits[-3:]))
@@ -464,11 +467,6 @@ class ReorgDriver(IndexDriver):
         if self.w.server is not None or not self.crashes:
             return
         c = self.crashes[-1]
-        if self.hazards.pop('c05_hist_rolled_back', None):
-            st = self.stored_state()
-            blk = self.w.tree.blocks.get(st['tip']) if st else None
-            if blk is not None:
-                self.half_undone = getattr(self, 'half_undone', []) + [blk]
         self.op_reopen_audit(dict(op='reopen_audit', props=(op.get('prop', 'C04'),),
                                   expect_height=c['applied_height'],
                                   why=f'the last UTXO batch applied before the crash (at {c["tag"]} '
